@@ -927,6 +927,9 @@ fn write_golden(ctx: &Ctx) {
 fn run(ctx: &Ctx) {
     alloc_guard::TRIP_LIMIT.store(TRIP, std::sync::atomic::Ordering::SeqCst);
     write_golden(ctx);
+    if std::env::var("VERIF_GOLDEN_ONLY").is_ok() {
+        return;
+    }
     ctx.enumerate("lengths-grid", len_grid(BOUNDARY_LENGTHS), true, |c: &LenCase| check_len(ctx, "lengths-grid", c));
     ctx.enumerate("inner-grid", inner_grid(), true, |c: &InnerCase| check_inner(ctx, "inner-grid", c));
     ctx.run("lengths", len_case(BOUNDARY_LENGTHS, 1 << 21), ctx.cases(8_000, 200_000), |c: &LenCase| {
@@ -940,5 +943,81 @@ fn run(ctx: &Ctx) {
     ctx.enumerate("lengths-grid-huge", len_grid(HUGE_LENGTHS), true, |c: &LenCase| check_len(ctx, "lengths-grid-huge", c));
     ctx.run("lengths-huge", len_case(HUGE_LENGTHS, 1 << 62), ctx.cases(3_000, 100_000), |c: &LenCase| {
         check_len(ctx, "lengths-huge", c)
+    });
+}
+
+// ---------------------------------------------------------------------------
+// Entry point for the coverage-guided target (/verif/harness/fuzz, target `wire_frames`)
+// ---------------------------------------------------------------------------
+
+thread_local! {
+    static FUZZ_CTX: Ctx = Ctx::new("C14", Tier::Thorough, 0, 0, 1);
+}
+
+/// Decode `stream` fed in chunks of the given sizes (cyclic; empty = all at once): frames, first error, bytes left.
+fn fuzz_feed(ctx: &Ctx, stream: &[u8], sizes: &[usize]) -> Result<(Vec<Frame>, Option<String>, usize), Fail> {
+    let mut de = Inbox::default();
+    let mut out = vec![];
+    let mut pos = 0;
+    let mut k = 0;
+    while pos < stream.len() {
+        let n = if sizes.is_empty() { stream.len() } else { sizes[k % sizes.len()].max(1) };
+        k += 1;
+        let end = (pos + n).min(stream.len());
+        if de.input(&stream[pos..end]).is_err() {
+            return Ok((out, Some("inbox full".into()), de.len()));
+        }
+        pos = end;
+        loop {
+            match next_frame(ctx, stream, &mut de)? {
+                Ok(Some(f)) => out.push(f),
+                Ok(None) => break,
+                Err(e) => return Ok((out, Some(e.to_string()), de.len())),
+            }
+        }
+    }
+    Ok((out, None, de.len()))
+}
+
+/// One libFuzzer iteration. The first two bytes choose the chunking, the rest is the inbound stream.
+/// Clauses: (memory) no single allocation above 64 KiB + bytes buffered, for arbitrary bytes in any chunking;
+/// (chunking) if the stream decodes completely and is the canonical encoding of the decoded frames, feeding
+/// it in chunks yields exactly the same frames.
+pub fn fuzz_one(data: &[u8]) {
+    if data.len() < 3 {
+        return;
+    }
+    // No trip wire here: an oversized request reaches the allocator, where libFuzzer's malloc limit
+    // (or the sanitizer's own size check) turns it into a crash with a saved input.
+    let (sel, stream) = data.split_at(2);
+    let sizes = [1 + (sel[0] & 0x3f) as usize, 1 + (sel[1] as usize) * ((sel[0] >> 6) as usize + 1)];
+    FUZZ_CTX.with(|ctx| {
+        let r = (|| -> CaseResult {
+            let (whole, werr, wleft) = fuzz_feed(ctx, stream, &[])?;
+            let (chunked, cerr, _) = fuzz_feed(ctx, stream, &sizes)?;
+            if werr.is_none() && wleft == 0 {
+                let mut again = vec![];
+                for f in &whole {
+                    if f.encode(&mut again).is_err() {
+                        return Ok(());
+                    }
+                }
+                if again == stream {
+                    ensure!(
+                        cerr.is_none() && chunked == whole,
+                        "fuzz:chunked-differs",
+                        "stream of {} frames fed in chunks of {sizes:?} gives {} frames, error {cerr:?}",
+                        whole.len(),
+                        chunked.len()
+                    );
+                }
+            }
+            Ok(())
+        })();
+        if let Err(f) = r {
+            if !ctx.is_known(&f.sig) {
+                panic!("VIOLATION property=C14 signature={} {}", f.sig, f.msg);
+            }
+        }
     });
 }
